@@ -245,7 +245,6 @@ impl Pack<Byte32> for H256 {
     fn pack(&self) -> (r: Byte32) ensures r@ == self@ { unimplemented!() }
 }
 pub open spec fn hashes_view(s: Seq<Byte32>) -> Seq<Seq<u8>> { s.map_values(|b: Byte32| b@) }
-pub mod packed { pub use super::*; }
 // Rust guarantees an allocation is at most isize::MAX bytes; a Byte32 occupies 32 bytes
 #[verifier::external_body]
 pub broadcast proof fn axiom_byte32_slice_len(s: &[Byte32])
